@@ -80,6 +80,124 @@ PROPS = {
         ],
         outside=COMMON_OUTSIDE + ["symbolic Vec lengths", "cursor within 2 of usize::MAX on the zero-extended reader"],
     ),
+    "C14": dict(
+        prefixes=["c14_"],
+        level_text="Bounded model checking of the real CountBitWriter/CountBitReader/DbgBitWriter/DbgBitReader code: every operation reachable through the wrappers (fixed-width, unary, flush/skip, the wrappers' own gamma/delta/zeta methods, every blanket codec incl. omega and the table-parameterised variants that go through peek_bits/skip_bits_after_peek, default bulk copies) run with symbolic arguments through the wrapper and on a bare copy of the same model stream: identical results, bits and positions, and counters equal to the exact number of bits that reached/left the inner stream; flush over a real BufBitWriter with pending bits.",
+        assumptions=[
+            "inner stream: model stream MS<E> (canonical model, exact bit counters); real BufBitWriter<E,Rec<u32>> from an arbitrary state for flush",
+            "one operation per harness from a stream with a symbolic prefix (<=16 bits); parameters of parameterised codes reduced (k mod 8, b<=16, u<=1000) and values bounded for unary-prefixed codes to keep codewords inside the 256-bit model stream",
+            "eprintln! output of the tracing wrappers is not checked (Kani's print override makes it a no-op)",
+        ],
+        outside=COMMON_OUTSIDE + ["the text printed by the tracing wrappers"],
+    ),
+    "C04": dict(
+        prefixes=["c03_w", "c03_ms_selfcheck", "c03_rt"],
+        level_text="Bounded model checking of every real code writer (src/codes/*.rs, table and non-table variants) on a model bit stream against a specification of the codewords written from the module documentation only (harness/src/spec.rs: per-bit, loop-free): for symbolic value, parameters and bit offset, the number of bits appended equals the definition's length and every appended bit (nondeterministic index) equals the definition's bit, for both endiannesses with the documented little-endian conventions. Writer word sizes follow from C01 (every real writer refines the same canonical stream).",
+        assumptions=[
+            "the specification in spec.rs is the published definition (validated natively against the literal vectors of the repository's tests/docs and its Python reference generator by oracle/validate.py)",
+            "value/parameter domains and the 128-bit codeword bound as in C03; zeta_k compared with the definition where 2^((h+1)k) fits (and in the (h+1)k = 64 wrap case)",
+            "quick tier: bit offset 0..=7 (every alignment inside a byte); thorough: 0..=64",
+        ],
+        outside=COMMON_OUTSIDE + ["zeta_k values with (h+1)k > 64 (the property does not claim the published form there)", "Golomb moduli above the stated bound"],
+    ),
+    "C05": dict(
+        prefixes=["c05_", "c03_w_gamma", "c03_w_delta", "c03_w_zeta3", "c03_r_gamma", "c03_r_delta", "c03_r_zeta3"],
+        level_text="Bounded model checking of table-driven vs bit-by-bit coding. Decoding: from an arbitrary representation-valid state of the REAL readers (BufBitReader over u16/u32/u64 words, BitReader) over a symbolic stream - hence every look-ahead pattern of every table at every buffer fill - the table variant and the plain variant return the same value and leave the same position and a valid state (gamma; delta in all table combinations; zeta3). Encoding/length tables: both variants are compared with the same definition for every value (C03/C04 harnesses *_tab_*), and the parameterless defaults of the real readers/writers agree with the plain variants.",
+        assumptions=[
+            "the plain decoder's precondition: the stream holds a codeword (first one bit within 20 / 6 / 11 bits for gamma / delta / zeta3, so that every field read is <= 64 bits)",
+            "readers whose construction emits the insufficient-look-ahead diagnostic are excluded by the property: BufBitReader<u8> (peek capability 8 bits < 9/11/12)",
+            "strict-tail behaviour (fewer bits than the index width before the end): see C09 harnesses *_tab_*",
+        ],
+        outside=COMMON_OUTSIDE + ["the text of the diagnostic (checked natively)"],
+    ),
+    "C06": dict(
+        prefixes=["c03_w", "c03_r", "c03_ms_rebase", "c10_const", "c10_func"],
+        level_text="Bounded model checking: in the C03/C04 codec harnesses every length function of the library for the code (with and without length tables) equals the value returned by the write, equals the growth of the stream, equals the length of the published definition (write harnesses, symbolic value/parameters) and equals the number of bits the read consumes (round-trip harnesses); the length-dispatch objects (ConstCode / Codes / FuncCodeLen) equal the code's own length function and the bits written (C10 harnesses, thorough tier).",
+        assumptions=["domains and bounds as in C03/C04; len_rice/len_golomb for astronomically long codewords (usize overflow) are outside"],
+        outside=COMMON_OUTSIDE + ["codewords longer than 128 bits"],
+    ),
+    "C09": dict(
+        prefixes=["c09_", "c07_seek_strict"],
+        level_text="Bounded model checking of the real BufBitReader over a strict MemWordReader whose data is truncated after a symbolic number of words, from an arbitrary reader state: each primitive (read_bits, read_unary, peek_bits, skip_bits) and code read (gamma/delta/zeta3 through their look-ahead tables, plain gamma, omega with its one-bit look-ahead, VByte) returns the right value whenever the bits it needs lie within the data - including when the codeword ends exactly at the end and the table peek runs past it - and an error whenever it needs a bit beyond the end. The zero-extending backend is infallible by typing and its reads past the end are covered by C02.",
+        assumptions=[
+            "oracle for code reads: a zero-extended twin reader over the same data (correct by C02/C05) gives the value and the number of bits needed",
+            "data of at most K words (K per harness); codewords bounded as in C05 (omega: values < 16; VByte: <= 3 bytes)",
+            "error values forgotten, message formatting stubbed",
+        ],
+        outside=COMMON_OUTSIDE + ["strict slice/vector writers read back and WordAdapter over a truncated Cursor (word level: C13/C11)"],
+    ),
+    "C07": dict(
+        prefixes=["c07_", "c02_read_bits", "c02_peek_bits", "c02_skip_bits", "c02_read_unary", "c02_ub_", "c12_read"],
+        level_text="Bounded model checking of bit_pos()/set_bit_pos() of the real BufBitReader (u8..u64) and BitReader: bit_pos() is asserted after every operation of the C02/C12 step harnesses (arbitrary reader state, so every history), and one set_bit_pos(p) with symbolic p from an arbitrary state is shown to land in the abstract state of a fresh reader that consumed p bits (invariant, position, every upcoming bit), on zero-extended and strict memory backends; word positions over seekable byte streams are C11.",
+        assumptions=[
+            "seek targets 0..=K*W over a symbolic array of K words (K per harness)",
+            "reader pre-state Inv_r as in C02",
+            "strict backend: data <= 4 words; error values forgotten, message formatting stubbed",
+        ],
+        outside=COMMON_OUTSIDE + ["std::io::BufReader / File internals (WordAdapter only calls read_exact, stream_position, seek)", "byte streams whose length is not a multiple of the word size"],
+    ),
+    "C10": dict(
+        prefixes=["c10_"],
+        level_text="Bounded model checking of the real dispatch code: for every compile-time constant 0..=50 (ConstCode<ID>: inherent methods, Static* trait impls, CodeLen), every enumeration variant with parameters 0..=11 plus symbolic parameters 11..=63 (Codes: write/read/len, Static* impls) and the function-pointer dispatchers (FuncCodeWriter/Reader/Len::new), the dispatcher and the code's own method named by the identifier run on two copies of a model stream with the same symbolic value: same bits, same lengths, same values, same positions, and the dispatcher reads back what it wrote; unsupported parameters are rejected.",
+        assumptions=[
+            "oracle: (family, parameter) derived from the identifier's NAME, restated once in the harness (direct_write!/direct_read!/direct_len)",
+            "value domain per code as in C03; unary-prefixed codes bounded so that the codeword fits the 256-bit model stream",
+            "streams: model stream MS<E,true> (parameterless traits use the table variants, like the real readers/writers)",
+            "anyhow error values are forgotten, message formatting stubbed",
+        ],
+        outside=COMMON_OUTSIDE + ["FactoryFuncCodeReader and the statistics wrapper pass-through are covered in C15 (wrapper) / not yet for the factory"],
+    ),
+    "C15": dict(
+        prefixes=["c15_"],
+        level_text="Bounded model checking of the real CodesStats / CodesStatsWrapper code: one update/update_many with symbolic value and multiplicity from an arbitrary statistics value (every field = old + len_code(n, parameter(index)) * count, index->parameter map restated in the harness), merge operations (add, +=, +, sum) equal the field-wise sum, best_code returns the minimum with the right parameter, the dispatch wrapper updates by the value written/read. Any multiset and any split follow by induction (updates and merges are additions). Thread interleavings are not decided by the solver (see outside_claim).",
+        assumptions=[
+            "totals fit in 64 bits: fields < 2^56 before the step, n < 2^12 (default instantiation <10,20,10,10,10>) or n < 2^40 (reduced instantiation <2,3,2,2,2>), count < 2^16 / 2^12",
+            "std::sync::Mutex as modelled by Kani (single-threaded use)",
+        ],
+        outside=COMMON_OUTSIDE + ["concurrent updates from several threads: Kani does not model threads; argument instead: every update is an addition performed under the wrapper's Mutex (lock held around the whole update by construction), additions commute, so any interleaving of atomic updates yields the same totals (Mutex contract trusted)", "full-width n with the default instantiation (20 constant dividers did not finish)"],
+    ),
+    "C16": dict(
+        prefixes=["c16_"],
+        heavy="c16_parse",
+        level_text="Bounded model checking of Codes::{from_code_const,to_code_const,eq,from_str}: all identifiers 0..=50 and out-of-range ones; code->identifier->code gives identical codewords on a model stream with symbolic values; == holds exactly inside the classes of codes with identical codewords (symbolic variants and parameters over the full usize range) and the members of each class have identical codewords; FromStr parses the literal names, Name(k) with symbolic one/two-digit k, and rejects malformed texts. Display is executed natively only (see outside_claim).",
+        assumptions=[
+            "Display is prefix + decimal(k) + suffix uniformly in k (core's integer formatting trusted); the printed templates are obtained by running the real Display natively on the current tree",
+            "parameters 0..=12 concrete for identifier round trips; parse: one- and two-digit parameters symbolic (thorough tier: from_str costs ~10 min / 7 GB per harness)",
+            "anyhow / CodeError values are forgotten, message formatting stubbed",
+        ],
+        outside=COMMON_OUTSIDE + ["symbolic execution of core::fmt (Display)", "parameters with three or more digits on the parse side"],
+    ),
+    "C19": dict(
+        prefixes=["c19_", "c01_write_bits", "c01_write_unary", "c03_w_", "c08_copy", "c12_write"],
+        builds={
+            "quick": [("checks", ["checks"], None, r"^c19_|^c01_write_bits_(be_u8|le_u64|be_u128)|^c03_w_(gamma|gamma_tab|delta_tab|omega|pi|rice|expgolomb|minbin|vbytebe)_be|^c03_w_(zeta3_tab|omega|pi|golomb)_le|^c08_copy_to_(be_u32|le_u64)|^c08_copy_from_(le_u16|be_u128)|^c12_write_(be_u16|le_u128)")],
+            "thorough": [("checks", ["checks"]),
+                         ("no_copy_impls", ["no_copy_impls"], ["c08_", "c01_write_bits"], r"^c08_|^c01_write_bits_(be_u64|le_u8)"),
+                         ("checks+no_copy_impls", ["checks", "no_copy_impls"], ["c08_", "c19_"])],
+        },
+        level_text="Bounded model checking against the library BUILT WITH EACH FEATURE SET: the C01 write_bits, C03 code-writer (definition harnesses), C08 copy and C12 io::Write harness groups are re-run with features checks / no_copy_impls / both and compared to the same oracle as the default build (so every result is identical across builds, and every fixed-width write the library issues for in-domain code writes, bulk copies and byte writes passes the argument check: the model stream asserts cleanliness, the real writer asserts it itself); with checks, a write_bits whose argument has a bit set at or above the width always panics (should_panic harness whose reachability witness after the call must be unreachable). Debug assertions and overflow checks are on in every Kani run; the release profile differs only by removing them.",
+        assumptions=[
+            "dev profile with debug assertions and overflow checks (what Kani compiles); the optimised profile is covered by 'no check fires' + native replays in release",
+            "clean arguments assumed for the re-run C01 harnesses under checks (dirty ones are the subject of c19_dirty_*)",
+        ],
+        outside=COMMON_OUTSIDE + ["rustc's optimiser (dev == release modulo removed checks is trusted)"],
+    ),
+    "C18": dict(
+        prefixes=["c18_", "c03_w_vbyte", "c03_r_vbyte"],
+        level_text="Bounded model checking of the byte-level VByte functions for every 64-bit value: vbyte_write_be/le produce exactly the bytes of the complete 7-bit-group definition, the same bytes as the bit-stream codes on a model stream of either endianness at byte-aligned positions, lengths equal byte_len_vbyte/bit_len_vbyte with steps at 2^7, 2^7+2^14, ...; the generic entry points select the named variant; vbyte_read_* inverts; completeness: every terminated byte string of 1..=10 bytes whose value fits in 64 bits decodes to that value and re-encodes to the same string.",
+        assumptions=["array-backed std::io sink/source (infallible)"],
+        outside=COMMON_OUTSIDE + ["byte strings longer than 10 bytes or overflowing 64 bits (behaviour unspecified by the property)"],
+    ),
+    "C20": dict(
+        prefixes=["c20_"],
+        level_text="Bounded model checking of the real length functions and of FindChangePoints::next: monotonicity len(n) <= len(n+1) for symbolic n and parameters; Kraft: 'length is constant on each piece' for symbolic n, then the exact Kraft sum over all pieces of the 64-bit domain with the library's own length at each piece start (2^-127 fixed point), periodic codes via the period lemma len(n+b)=len(n)+1 and the exact sum of the first period; change-point iterator: first item (0,f(0)), one next() from an arbitrary iterator state for a symbolic monotone step function returns exactly the next change point, and next() returns None without overflow when no further change point exists.",
+        assumptions=[
+            "Golomb: b <= 64 symbolic, n < 2^32 (monotone / period lemma); Rice period lemma k <= 20, n < 2^40",
+            "change-point exactness: distance to the next change point < 2^16 (quick) / 2^32 (thorough), next change point <= 2^63",
+            "the geometric series over periods (Rice/Golomb/unary) is the textbook step, not discharged by the solver",
+        ],
+        outside=COMMON_OUTSIDE + ["get_implied_distribution / sampling (floating point)", "change points farther than the stated gap from the previous one"],
+    ),
     "C17": dict(
         prefixes=["c17_"],
         level_text="Symbolic check over the whole input type of each width (8..128 bits, pointer size): to_nat/to_int are mutually inverse and follow the documented formula; loop-free, so the bound is the type width itself.",
